@@ -497,6 +497,10 @@ func (u *Unit) oblige(st *State, kind, anchor string, goal T, human string) *Obl
 		u.assume(st, goal)
 		return nil
 	}
+	if u.opts.FrameOnly && kind != "frame" {
+		u.assume(st, goal)
+		return nil
+	}
 	if u.opts.AssumePre && kind == "pre" {
 		u.assume(st, goal)
 		u.note("callee preconditions in " + u.name + " are assumed here (they are obligations of the plans that own them)")
